@@ -21,7 +21,7 @@ from bounded.drv import Recorder
 PID = "C18"
 
 PROPOSED_FINDINGS = [
-    dict(property=PID, id="parallel-unequal-rhythms-retrigger",
+    dict(property=PID, id="parallel-unequal-rhythms",
          function="mingus.midi.sequencer.Sequencer.play_Bars",
          clause="exactly-one-play-event / nothing-left-sounding / nothing-stopped-that-was-not-started / total-time-slept",
          region="bars (or the bars of tracks) played together where a sounding (non-rest, non-empty) entry of one "
@@ -208,19 +208,18 @@ def onsets(bar):
 
 
 def first_span(group):
-    """bars played together: the earliest onset of one bar that falls strictly inside a sounding entry of another
-    bar (None if there is none) - the region of finding parallel-unequal-rhythms-retrigger"""
+    """bars played together: the earliest onset of one bar that falls strictly inside an entry (notes or rest) of
+    another bar (None if all bars have the same onsets) - the region of finding parallel-unequal-rhythms"""
     best = None
     for i, bi in enumerate(group):
         t = F(0)
         for e in bi[1]:
             d = 1 / F(e[0])
-            if e[1]:
-                for j, bj in enumerate(group):
-                    if j != i:
-                        for o in onsets(bj):
-                            if t < o < t + d and (best is None or o < best):
-                                best = o
+            for j, bj in enumerate(group):
+                if j != i:
+                    for o in onsets(bj):
+                        if t < o < t + d and (best is None or o < best):
+                            best = o
             t += d
     return best
 
@@ -833,7 +832,7 @@ def run(tier, seed):
             partial = any(content_len(b) != bar_len(b[0]) for gr in groups for b in gr)
             spans = [first_span(gr) for gr in groups]
             if any(sp is not None for sp in spans):
-                finding = "parallel-unequal-rhythms-retrigger"
+                finding = "parallel-unequal-rhythms"
                 k = [i for i, sp in enumerate(spans) if sp is not None][0]
                 if not partial and not any(float_shortfall(gr) for gr in groups[:k + 1]):
                     until = tempo.sec(sum((bar_len(gr[0][0]) for gr in groups[:k]), F(0)) + spans[k])
@@ -879,8 +878,8 @@ def run(tier, seed):
         if until is not None:
             report(group, inputs, analyse(ev, notes, None, False, until=until))
         ret_check(group, inputs, res, tempo.final(),
-                  finding=finding if tempo.changes and finding in ("parallel-unequal-rhythms-retrigger",
-                                                                   "tracks-unequal-bar-count") else None)
+                  finding=finding if finding == "parallel-unequal-rhythms" or
+                  (tempo.changes and finding == "tracks-unequal-bar-count") else None)
         if same_stream(R, group, inputs, s, (o, w)):
             note_callbacks_mirror(R, group, inputs, o)
         return True
